@@ -54,19 +54,23 @@ def neq_scan(F, f, e, param):
             if s['lhs']['l'] == 0:
                 r = cf.expr_rvalue(s['rv'])
                 if r[0] == 'binop' and r[1] in ('Ne',):
-                    sides = [show(r[2]), show(r[3])]
-                    if any(x.startswith(param + '[') or x.startswith(param + '<Some>.0[') for x in sides) and any('.1' in x for x in sides):
+                    def indexed_param(y):
+                        return y[0] == 'call' and y[4].get('name') == 'index' and len(y[2]) == 2 and \
+                            show(y[2][0]) in (param, param + '<Some>.0')
+                    sides = [r[2], r[3]]
+                    if any(indexed_param(y) for y in sides) and any('.1' in show(y) for y in sides if not indexed_param(y)):
                         return src, True
         return None
     if e[0] == 'binop' and e[1] in ('Ne', 'Eq'):
         # explicit loop: `for (i, b) in self.X.iter().enumerate() { if *b != param[i] { return Err } }`
         for a, b in ((e[2], e[3]), (e[3], e[2])):
-            if not (a[0] == 'field' and a[2] == '1' and b[0] == 'index'):
+            if not (a[0] == 'field' and a[2] == '1' and b[0] == 'call' and b[4].get('name') == 'index' and len(b[2]) == 2):
                 continue
             elem = a[1]
-            if not (b[2][0] == 'field' and b[2][2] == '0' and show(b[2][1]) == show(elem)):
+            bi_, ix_ = b[2]
+            if not (ix_[0] == 'field' and ix_[2] == '0' and show(ix_[1]) == show(elem)):
                 continue
-            if access_path(b[1]) not in (param, param + '.<Some>'):
+            if access_path(bi_) not in (param, param + '.<Some>'):
                 continue
             nx = [x for x in walk(elem, inl=False) if x[0] == 'call' and x[1] == 'std::iter::Iterator::next']
             if len(nx) != 1:
